@@ -9,6 +9,12 @@
         -> cyc=0|1   (or FUEL)
      WFQ <n> | specs                 -> known=b trig=b closed=b acyclic=b  (hypotheses of the theorems)
      ACC <n> | specs | labels        -> acc=0|1   (used by the vm_compute cross-check)
+     FLOWC <n> | path:guard:kind:refs;... | labels
+          the task-graph CONFIGURATION (Flow/Discover.v) instead of a dependency graph:
+          path = dotted field numbers, guard = '-' or g, kind = T<id> or R,
+          refs = '-' or comma list of dotted paths; same result line as FLOW, the
+          dependency sets and the appearance of tasks are discovered by the model
+     DISC <n> | config | res         -> t=[impl deps]/[spec deps],...  for the tasks of that configuration
 *)
 open C18_model
 
@@ -35,6 +41,26 @@ let parse_wf s : workflow =
         let trig = if tr = "-" || tr = "" then None else Some (nat_of_int (int_of_string tr)) in
         { t_deps = deps; t_trig = trig }
       | _ -> failwith ("bad task " ^ ent))
+    (split_nonempty ';' s)
+
+let parse_path s : nat list =
+  if s = "" || s = "." then [] else List.map (fun x -> nat_of_int (int_of_string x)) (String.split_on_char '.' s)
+
+let parse_refs s = if s = "-" || s = "" then [] else List.map parse_path (String.split_on_char ',' s)
+
+let parse_cfg s : config =
+  List.map (fun ent ->
+      match String.split_on_char ':' (String.trim ent) with
+      | [p; g; k; rs] ->
+        let guard = if g = "-" || g = "" then None else Some (nat_of_int (int_of_string g)) in
+        let refs = parse_refs rs in
+        let item =
+          if k = "R" then IRef refs
+          else if String.length k > 1 && k.[0] = 'T' then
+            ITask (nat_of_int (int_of_string (String.sub k 1 (String.length k - 1))), refs)
+          else failwith ("bad item " ^ k) in
+        { e_path = parse_path p; e_guard = guard; e_item = item }
+      | _ -> failwith ("bad entry " ^ ent))
     (split_nonempty ';' s)
 
 let parse_label tok =
@@ -88,6 +114,21 @@ let handle line =
         | None -> body
         | Some (oc, res) ->
           Printf.sprintf "%s END:%s RES:%s VAL:eq" body (outcome_name oc) (ints (List.map int_of_nat res)))
+     | ["FLOWC"; _] | ["FLOWX"; _] ->
+       let cfg = parse_cfg (List.nth rest 0) in
+       let ls = List.map parse_label (words (List.nth rest 1)) in
+       let (os, fin) = c18_observe_cfg cfg ls in
+       let body = String.concat " " (List.map show_obs os) in
+       (match fin with
+        | None -> body
+        | Some (oc, res) ->
+          Printf.sprintf "%s END:%s RES:%s VAL:eq" body (outcome_name oc) (ints (List.map int_of_nat res)))
+     | ["DISC"; _] ->
+       let cfg = parse_cfg (List.nth rest 0) in
+       let r = String.trim (List.nth rest 1) in
+       let res = if r = "-" || r = "" then [] else List.map (fun x -> nat_of_int (int_of_string x)) (String.split_on_char ',' r) in
+       let ents = List.sort compare (List.map (fun (t, (a, b)) -> (int_of_nat t, sort_uniq_ints a, sort_uniq_ints b)) (c18_discover cfg res)) in
+       String.concat "," (List.map (fun (t, a, b) -> Printf.sprintf "%d=[%s]/[%s]" t (ints a) (ints b)) ents)
      | ["WFQ"; _] ->
        let w = parse_wf (List.nth rest 0) in
        let (((k, t), c), a) = c18_hyps w in
